@@ -58,6 +58,17 @@ def check_values(name, FL, r, ref_name=None, raw=None):
     if out.shape != r.shape:
         bad.append(('shape', '%s: result shape %r != input shape %r' % (name, out.shape, r.shape)))
         return bad
+    if raw is None and out.ndim:
+        # the values returned for this batch are this batch's values for good: a later call of the same limiter object with
+        # other ratios of the same shape (what a TVD loop does, sweep after sweep) must not rewrite a result that was kept
+        keep, r_in = out.copy(), r.copy()
+        with np.errstate(all='ignore'):
+            FL(np.where(np.isfinite(r), 0.5 - r, 1.0)[::-1].copy())
+        if not np.array_equal(out, keep, equal_nan=True):
+            bad.append(('result-rewritten', '%s: an array returned earlier changed when the limiter was called again (shape %r)' % (name, out.shape)))
+            out = keep
+        if not np.array_equal(r, r_in, equal_nan=True):
+            bad.append(('input-modified', '%s: the ratio array passed in was modified' % name))
     rf, of = r.ravel(), np.asarray(out, dtype=float).ravel()
     if not np.all(np.isfinite(of)):
         i = int(np.argmax(~np.isfinite(of)))
